@@ -82,6 +82,12 @@ def main():
                 "CONSTANTS\n P = %d\n ByteBase = %d\n N8 = %d\n Mode = \"%s\"\nINIT Init\nNEXT Next\nINVARIANT %s\nCHECK_DEADLOCK FALSE\n"
                 % (p, bb, n8, mode, "InvArith" if mode == "arith" else "InvBytes"))
             index.append(name)
+    # word-level Montgomery multiplication: (P, W, NL, BadLink)
+    for (p, w, nl, bad) in [(251, 4, 2, 99), (251, 4, 2, 1), (241, 2, 4, 99), (241, 2, 4, 1), (241, 2, 4, 3), (127, 7, 1, 99)]:
+        name = "MC_Mont_p%d_w%d_bad%d.cfg" % (p, w, bad)
+        open(os.path.join(spec, "cfg", name), "w").write(
+            "CONSTANTS\n P = %d\n W = %d\n NL = %d\n BadLink = %d\nINIT Init\nNEXT Next\nINVARIANT InvMont\nCHECK_DEADLOCK FALSE\n" % (p, w, nl, bad))
+        index.append(name)
     # the API state machine on toy curves
     for (p, d) in TOY[:5]:
         n = order(p, d); r = n // 4
